@@ -46,6 +46,19 @@ impl<K> VSet<K> {
     fn len(&self) -> (r: usize) { unimplemented!() }
 }
 
+spec fn strictly_ascending(xs: Seq<u32>) -> bool {
+    forall|i: int, j: int| 0 <= i < j < xs.len() ==> xs[i] < xs[j]
+}
+// ASSUMED contract of <[T]>::to_vec (instantiated at T = u32 only, where Clone is a bit copy)
+pub assume_specification<T: Clone>[ <[T]>::to_vec ](s: &[T]) -> (r: Vec<T>) ensures r@ == s@;
+
+// R13: ASSUMED contracts of std's slice::sort_unstable and Vec::dedup on Vec<u32>
+spec fn sorted_le(xs: Seq<u32>) -> bool { forall|i: int, j: int| 0 <= i < j < xs.len() ==> xs[i] <= xs[j] }
+#[verifier::external_body]
+fn vpv_sort_unstable(v: &mut Vec<u32>) ensures final(v)@.to_set() == old(v)@.to_set(), sorted_le(final(v)@) { v.sort_unstable() }
+#[verifier::external_body]
+fn vpv_dedup(v: &mut Vec<u32>) requires sorted_le(old(v)@), ensures final(v)@.to_set() == old(v)@.to_set(), strictly_ascending(final(v)@) { v.dedup() }
+
 // R3: the derived `Ord` on ZddRef, used only to normalise commutative cache keys.  No postcondition:
 // every proof must go through for either answer.
 #[verifier::external_body]
@@ -354,9 +367,6 @@ spec fn pwo_cache_ok(c: Map<ZddRef, ZddRef>, nodes: Seq<ZddNode>, var: u32) -> b
 }
 
 
-spec fn strictly_ascending(xs: Seq<u32>) -> bool {
-    forall|i: int, j: int| 0 <= i < j < xs.len() ==> xs[i] < xs[j]
-}
 
 // One step of the membership walk: with rest = xs[i..] (strictly ascending), at a node:
 //   var == xs[i]  -> continue in hi with xs[i+1..]
@@ -958,4 +968,35 @@ spec fn zit_ok(stack: Seq<(ZddRef, Vec<u32>, u8)>, nodes: Seq<ZddNode>, root: Zd
 
 spec fn zit_valid(stack: Seq<(ZddRef, Vec<u32>, u8)>, nodes: Seq<ZddNode>) -> bool {
     forall|k: int| 0 <= k < stack.len() ==> valid(#[trigger] stack[k].0, nodes.len() as int)
+}
+
+// building a chain for a strictly ascending vector, from the largest element down: after processing xs[i..] the
+// current reference denotes exactly { set(xs[i..]) }
+spec fn is_singleton_family(nodes: Seq<ZddNode>, r: ZddRef, xs: Seq<u32>, i: int) -> bool {
+    forall|s: Set<u32>| #[trigger] mem(nodes, r, s) == (s =~= xs.subrange(i, xs.len() as int).to_set())
+}
+proof fn lemma_chain_step(xs: Seq<u32>, i: int, s: Set<u32>)
+    requires strictly_ascending(xs), 0 < i <= xs.len(),
+    ensures (s.contains(xs[i - 1]) && s.remove(xs[i - 1]) =~= xs.subrange(i, xs.len() as int).to_set())
+             == (s =~= xs.subrange(i - 1, xs.len() as int).to_set()),
+{
+    let v = xs[i - 1];
+    let tail = xs.subrange(i, xs.len() as int); let full = xs.subrange(i - 1, xs.len() as int);
+    assert(full[0] == v);
+    assert forall|x: u32| full.to_set().contains(x) == (x == v || tail.to_set().contains(x)) by {
+        if full.to_set().contains(x) { let k = choose|k: int| 0 <= k < full.len() && full[k] == x; if k > 0 { assert(tail[k - 1] == x); } }
+        if tail.to_set().contains(x) { let k = choose|k: int| 0 <= k < tail.len() && tail[k] == x; assert(full[k + 1] == x); }
+    }
+    assert(!tail.to_set().contains(v)) by {
+        if tail.to_set().contains(v) { let k = choose|k: int| 0 <= k < tail.len() && tail[k] == v; assert(xs[i + k] == v); assert(xs[i - 1] < xs[i + k]); }
+    }
+    if s.contains(v) && s.remove(v) =~= tail.to_set() {
+        assert forall|x: u32| s.contains(x) == full.to_set().contains(x) by { if x != v { assert(s.remove(v).contains(x) == s.contains(x)); } }
+        assert(s =~= full.to_set());
+    }
+    if s =~= full.to_set() {
+        assert(s.contains(v));
+        assert forall|x: u32| s.remove(v).contains(x) == tail.to_set().contains(x) by { }
+        assert(s.remove(v) =~= tail.to_set());
+    }
 }
